@@ -387,7 +387,9 @@ class IndentationFitter(object):
         `self.fit_range` before the actual fitting.
         """
         model_key = self.fp["model_key"]
-        params_initial = self.fp["params_initial"]
+        # work on a copy (the stored initial parameters remain in
+        # measured units and are not scaled again in multi-pass fits)
+        params_initial = copy.deepcopy(self.fp["params_initial"])
         # modify contact point with gcf_k
         cpi = params_initial["contact_point"].value
         params_initial["contact_point"].set(value=cpi * self.fp["gcf_k"])
